@@ -133,7 +133,10 @@ class Ctx:
         # VERIF_BUILD_TAG lets two runs of the same check (e.g. coordinator and developer) use separate scratch dirs
         self.build = os.path.join(VERIF, "build", pid + os.environ.get("VERIF_BUILD_TAG", ""))
         os.makedirs(self.build, exist_ok=True)
-        os.makedirs(os.path.join(VERIF, "evidence"), exist_ok=True)
+        # the coordinator's seeded-change tools run checks against scratch trees: they set VERIF_EVIDENCE_DIR so that
+        # /verif/evidence/<id>.json (the record of the last run against /repo) is never overwritten by such a run
+        self.evidence_dir = os.environ.get("VERIF_EVIDENCE_DIR") or os.path.join(VERIF, "evidence")
+        os.makedirs(self.evidence_dir, exist_ok=True)
         os.makedirs(os.path.join(VERIF, "replays"), exist_ok=True)
         self.t0 = time.time()
         self._violations = []   # (case, why)
@@ -490,7 +493,7 @@ class Ctx:
             "wall_s": round(time.time() - self.t0, 2),
             "violations": len(self._violations) + (1 if (self._unshown and not self._violations) else 0),
         }
-        json.dump(ev, open(os.path.join(VERIF, "evidence", self.id + ".json"), "w"), indent=1,
+        json.dump(ev, open(os.path.join(self.evidence_dir, self.id + ".json"), "w"), indent=1,
                   default=str)
         for l in lines:
             print(l)
